@@ -364,7 +364,13 @@ def write_third_party(spec):
             entries.insert(rng.randrange(len(entries) + 1), ("deleted", e))
         # scatter over the 112 slots, keeping the relative order, never-used slots (FF) in between
         nslots = 112
-        if sd.get("spread") and len(entries) < nslots:
+        if sd.get("spread") == "dense" and 2 * len(entries) < nslots:
+            # never-used slots tightly interleaved with the used ones: gaps of 0 or 1 slot
+            idx, k = [], rng.choice([0, 1])
+            for _ in entries:
+                idx.append(k)
+                k += 1 + rng.choice([0, 1, 1])
+        elif sd.get("spread") and len(entries) < nslots:
             idx = sorted(rng.sample(range(nslots), len(entries)))
         else:
             idx = list(range(len(entries)))
@@ -409,5 +415,5 @@ def gen_third_party(rng, is_fd=None, nsides=None, max_files=6):
             files.append(f)
         sides.append({"files": files, "deleted": rng.choice([0, 0, 1, 3]), "extra_reserved": rng.sample([0, 1, 2, 80, 159], rng.choice([0, 0, 1, 2])),
                       "filler": rng.choice([0xE5, 0x00, 0xFF, 0x41]), "fat0": rng.choice([0, 0, 0xFF]), "fat_tail": rng.choice([0, 0, 0xFF]),
-                      "order": rng.choice(["asc", "desc", "random"]), "frag": rng.random() < 0.5, "spread": rng.random() < 0.5})
+                      "order": rng.choice(["asc", "desc", "random"]), "frag": rng.random() < 0.5, "spread": rng.choice([False, True, "dense", "dense"])})
     return {"is_fd": is_fd, "nsides": nsides, "seed": rng.randint(0, 1 << 30), "sides": sides}
